@@ -93,6 +93,7 @@ def get_combinations_from_columns(all_columns: pd.Index, args: Any) -> list[tupl
             (individual_column, individual_column)
             for individual_column in all_columns
             if individual_column != args.label_column
+            and not ('3mr' in args.heuristic and ' AND_REL ' in individual_column)
         ]
     return combinations
 
